@@ -7,7 +7,7 @@
 seed=${1:-23}
 for p in C01 C02 C03 C04 C07 C08 C10 C11 C12 C13 C14 C16 C19 C20 C05 C06 C09; do
   start=$(date +%s)
-  ./bin/dsim check $p --tier thorough --seed $seed --out ./thorough-out > thorough-$p.log 2>&1
+  ./bin/dsim check $p --tier thorough --seed $seed ${THOROUGH_SCALE:+--scale $THOROUGH_SCALE} --out ./thorough-out > thorough-$p.log 2>&1
   rc=$?
   echo "$p exit=$rc $(( $(date +%s) - start ))s $(grep -E '^(VIOLATION|HARNESS|KNOWN)' thorough-$p.log | head -3 | cut -c1-160)"
 done
